@@ -12,7 +12,8 @@ import (
 // mode lcd: ppu.PPU (with real interrupts.Interrupts and oam.OAM) through its public API.
 // ops:  reset | t (EndMachineCycle) | lcdc <hex2> | stat <hex2> | lyc <hex2> | ly <hex2>
 // out:  "<ReadLY> <ReadSTAT&3> <IF&0x1f> ; <ReadSTAT> <ReadLCDC> <oam corrupt>"
-//       IF is read after the op and then cleared, so it shows the requests raised by this op only.
+//
+//	IF is read after the op and then cleared, so it shows the requests raised by this op only.
 func init() { modes["lcd"] = modeFn{gen: lcdGen, replay: lcdReplay} }
 
 type lcdRun struct {
